@@ -160,8 +160,16 @@ KnownFxp(Active, E, RES, P) ==
 (* produces the proof artefacts although the process exits with a failure status.                          *)
 KnownExitProves(Active, O) ==
     /\ IsActive(Active, "C18-systemexit-bypass")
-    /\ O.mode \in {"raiseSE1", "builtinexit1"} /\ O.autoprove /\ O.status = 1
+    /\ O.mode \in {"raiseSE1", "builtinexit1"} /\ O.autoprove /\ O.status = 1 /\ O.prior # "caught1"
     /\ Note("C18-systemexit-bypass", <<O.mode, O.backend>>)
+
+(* C18-stale-exit-code-after-caught-sysexit: sys.exit(n), n # 0, whose SystemExit the script catches leaves n     *)
+(* recorded; if the script then ends with status 0 without another call of the interposed sys.exit (falls off     *)
+(* the end, raise SystemExit(0), builtin exit(0)) the exit hook skips the proof although the run succeeded.       *)
+KnownExitSkips(Active, O) ==
+    /\ IsActive(Active, "C18-stale-exit-code-after-caught-sysexit")
+    /\ O.prior = "caught1" /\ O.mode \in {"falloff", "raiseSE0", "builtinexit0"} /\ O.autoprove /\ O.status = 0 /\ ~O.artefacts
+    /\ Note("C18-stale-exit-code-after-caught-sysexit", <<O.mode, O.backend>>)
 
 (* ----------------------------------------------------------------------- *)
 (* C19-specific-backend-reported-as-generic: importing backendbellman / backendbulletproofs / backendgg     *)
